@@ -260,6 +260,20 @@ func pinnedCases() []pinned {
 		m.Headers = []*schema.Header{{Name: "x-api-key", Type: "string", Required: true, Format: "uuid"}}
 		out = append(out, pinned{File: "C18/header_case_variant_declared_twice.json", Doc: &c18Case{Property: "C18", Schema: s}})
 	}
+	{
+		s, _, resp, _, _ := baseSchema("p0060")
+		resp.Oneofs = []*schema.Oneof{{Name: "content", Discriminator: "kind"}}
+		resp.Fields = append(resp.Fields, &schema.Field{Name: "text", Number: 2, Kind: schema.KString, Card: schema.Singular, Oneof: "content"},
+			&schema.Field{Name: "count", Number: 3, Kind: schema.KInt32, Card: schema.Singular, Oneof: "content"})
+		innerCase("C06", "C06/discriminated_oneof_schema_unsatisfiable.json", "both", "c06", "PinService.Do", s, "oneof_disc_openapi_schema")
+		s2, _, resp2, _, _ := baseSchema("p0061")
+		resp2.Fields = append(resp2.Fields, fld("ratio", 2, schema.KDouble, schema.Singular))
+		innerCase("C06", "C06/nan_sent_as_string.json", "both", "c06", "PinService.Do", s2, "float_nonfinite_vs_number_schema")
+		s3, _, resp3, _, _ := baseSchema("p0062")
+		s3.Files[0].Enums = []*schema.Enum{{Name: "Color", Values: []*schema.EnumValue{{Name: "COLOR_UNSPECIFIED", Number: 0}, {Name: "COLOR_RED", Number: 1}}}}
+		resp3.Fields = append(resp3.Fields, &schema.Field{Name: "color", Number: 2, Kind: schema.KEnum, TypeRef: s3.Pkg + ".Color", Card: schema.Optional, Ann: &schema.Ann{Nullable: true}})
+		innerCase("C06", "C06/nullable_enum_null_not_in_enum.json", "both", "c06", "PinService.Do", s3, "nullable_enum_schema")
+	}
 	// ---- C19 ----
 	rules := func(id string, fields ...*schema.Field) *schema.Schema {
 		pkg := id + ".rules.v1"
